@@ -647,18 +647,23 @@ fn scale_at(div: usize) -> Vec<RCase> {
     // SqPack database whose path fields carry no terminator (240 bytes of text each), and one with terminated paths
     {
         let n = 4000 / div;
-        for terminated in [false, true] {
+        for variant in 0..3 {
             let mut w = W::new();
             w.bytes(&sqpack::sqpack_header(0, 0, -1));
             w.u32(1024).u32(n as u32).zeros(1016);
             for i in 0..n as u32 {
-                w.zeros(4).u32(128 * i).u32(100 + i).zeros(4).u32(0xAABB_0000 + i).u32(0xCCDD_0000 + i);
+                if variant == 2 {
+                    // damaged as a whole: not a single zero byte in the entry region
+                    w.fill(24, 0x11);
+                } else {
+                    w.zeros(4).u32(128 * i).u32(100 + i).zeros(4).u32(0xAABB_0000 + i).u32(0xCCDD_0000 + i);
+                }
                 let mut p = format!("exd/sheet{}.exh", i).into_bytes();
-                p.resize(240, if terminated { 0 } else { b'a' });
+                p.resize(240, if variant == 0 { 0 } else { b'a' });
                 w.bytes(&p);
             }
             w.zeros(64);
-            push("sqdb", if terminated { "4 000 entries" } else { "4 000 entries whose path fields are full (no terminator inside the field)" }, vec![w.b]);
+            push("sqdb", ["4 000 entries", "4 000 entries whose path fields are full (no terminator inside the field)", "4 000 entries without a single zero byte in the entry region"][variant], vec![w.b]);
         }
     }
     // deformer with one bone whose name is a megabyte long, and one whose name has lost its terminator
